@@ -22,7 +22,7 @@
    that run the inner provider on the LEADER's *SessionState.
 
    No proofs in this file. *)
-From V Require Import Base.
+From V Require Import Base GoQuote.
 From Coq Require Import ZArith.
 
 (* ---------- association lists (first match wins; update = cons, delete = filter) ---------- *)
@@ -234,41 +234,61 @@ Definition service_of (e : endpoint) : service :=
 Inductive question :=
 | QSession (e : endpoint) (s : session) (allowed : list str)
     (* validate / refresh / revoke: by the caller's own session. [allowed] is the allowedGroups
-       argument of the proxy's ValidateSessionState / RefreshSession (proxy :97, :116); the auth
-       methods have no such argument ([]). It is part of what is asked — the inner provider's
-       answer depends on it (sso.go:264-281, 371-394) — but NOT of the key. *)
+       argument of the proxy's ValidateSessionState / RefreshSession (proxy :107, :127); the auth
+       methods have no such argument ([]). The inner provider's answer depends on it
+       (sso.go:264-281, 371-394) and, since the repair of C16-K3, so does the key. *)
 | QGroups (e : endpoint) (email : str) (groups : list str)  (* UserGroups / ValidateGroupMembership *)
 | QToken (e : endpoint) (refresh_token : str).              (* RefreshAccessToken *)
 
 Definition q_endpoint (q : question) : endpoint :=
   match q with QSession e _ _ => e | QGroups e _ _ => e | QToken e _ => e end.
 
-(* which token a session-keyed endpoint uses: the refresh token for the refresh methods
-   (proxy :117, auth :105), the access token otherwise (proxy :98, auth :81, :141) *)
+(* which token names a session-keyed call: the refresh token for the refresh methods, the access
+   token otherwise *)
 Definition session_token (e : endpoint) (s : session) : str :=
   match e with PRefresh | ARefresh => s_refresh_token s | _ => s_access s end.
 
-(* second argument of p.do: proxy :82 / auth :122  fmt.Sprintf("%s:%s", email, strings.Join(groups, ","))
-   after sort.Strings(groups) *)
-Definition groups_key (email : str) (groups : list str) : str :=
-  email ++ [colon] ++ join [comma] (sort_strs groups).
+(* strconv.IsPrint for runes >= 0x80 is a library table: the model lists the non-printable ones
+   among the code points the driver uses (U+00A0, U+00AD, U+200B, U+E0001) and takes every other
+   rune >= 0x80 as printable. Every lemma about the quoting holds for EVERY table
+   (GoQuote_proofs); the observed keys are compared with the model's on every run. *)
+Definition go_isprint (cp : N) : bool := negb (existsb (N.eqb cp) [160; 173; 8203; 917505]).
+Definition qq (s : str) : str := go_quote go_isprint s.
+Definition ql (l : list str) : str := go_qlist go_isprint l.
 
+(* fmt.Sprintf with format %q:%q of (string, string) and of (string, sorted []string) *)
+Definition pair_key (a b : str) : str := qq a ++ [colon] ++ qq b.
+Definition list_key (a : str) (l : list str) : str := qq a ++ [colon] ++ ql (sort_strs l).
+
+(* second argument of p.do (repaired keys, /repo commits 4af0640, 8276927, 7e98525):
+     proxy UserGroups :91 / auth ValidateGroupMembership :123   %q:%q of (email, groups) after sort.Strings(groups)
+     proxy ValidateSessionState :109 / RefreshSession :129      sessionKey(token, allowedGroups) :54-58
+                                                                 = %q:%q of (token, sorted copy of allowedGroups)
+     auth Revoke :143                                            %q:%q of (access token, refresh token)
+     auth ValidateSessionState :79, RefreshSessionIfNeeded :103, RefreshAccessToken :156: the bare token *)
 Definition sub_key (q : question) : str :=
   match q with
-  | QSession e s _ => session_token e s
-  | QGroups _ email groups => groups_key email groups
+  | QSession e s al =>
+      match e with
+      | PValidate | PRefresh => list_key (session_token e s) al
+      | ARevoke => pair_key (s_access s) (s_refresh_token s)
+      | _ => session_token e s
+      end
+  | QGroups _ email groups => list_key email groups
   | QToken _ tok => tok
   end.
 
-(* do(): compositeKey := fmt.Sprintf("%s/%s", endpoint, key)   (proxy :55, auth :54) *)
+(* do(): compositeKey := fmt.Sprintf("%s/%s", endpoint, key)   (proxy :61, auth :52) *)
 Definition wrapper_key (q : question) : str := endpoint_name (q_endpoint q) ++ [slash] ++ sub_key q.
 
-(* the subject a key is meant to identify *)
+(* the subject a key identifies *)
 Inductive subject :=
 | SubjToken (ep : str) (tok : str)
+| SubjPair (ep : str) (access refresh : str)
 | SubjGroups (ep : str) (email : str) (sorted_groups : list str).
 Definition subject_of (q : question) : subject :=
   match q with
+  | QSession ARevoke s _ => SubjPair (endpoint_name ARevoke) (s_access s) (s_refresh_token s)
   | QSession e s _ => SubjToken (endpoint_name e) (session_token e s)
   | QGroups e email groups => SubjGroups (endpoint_name e) email (sort_strs groups)
   | QToken e tok => SubjToken (endpoint_name e) tok
@@ -281,13 +301,7 @@ Definition allowed_of (q : question) : list str :=
   | _ => []
   end.
 
-(* the guard under which the groups key is injective *)
 Definition no_byte (c : N) (s : str) : bool := negb (existsb (N.eqb c) s).
-Definition is_lone_empty (l : list str) : bool := match l with [[]] => true | _ => false end.
-Definition guard_groups (email : str) (groups : list str) : bool :=
-  no_byte colon email && forallb (no_byte comma) groups && negb (is_lone_empty groups).
-Definition guard (q : question) : bool :=
-  match q with QGroups _ email groups => guard_groups email groups | _ => true end.
 
 (* values that travel through Do as interface{} / error *)
 Inductive value :=
